@@ -12,7 +12,7 @@ import math
 
 import numpy as np
 
-from vmon import core, gen, contracts
+from vmon import core, gen, contracts, pipeline
 from vmon import refmodel as rm
 from vmon.shadow import ShadowTrajectory
 
@@ -275,6 +275,21 @@ def apply_op(run, case, real, sh, op, stamped, state, step):
                   key="selection:not-subset")
         if not ok:
             raise Mismatch()
+        if name == "mf":
+            # documented effect: keep a pose exactly if, since the last kept pose, the travelled
+            # path reached d or the rotation angle reached a (own selection rule; decisions within
+            # rounding distance of a threshold are not judged)
+            try:
+                want = pipeline.motion_filter_ids(sh, op["d"], op["a"])
+                run.check(ids == want, "motion filter keeps exactly the documented poses", case,
+                          "motion_filter(%r, %r deg) kept %s.., the documented rule keeps %s.." %
+                          (op["d"], op["a"], ids[:8], want[:8]), key="motion_filter:wrong-selection")
+            except (pipeline.Ambiguous, pipeline.Refuse):
+                run.hit("motion filter decision at a threshold (not judged)")
+        if name == "down":
+            want = pipeline.downsample_ids(sh.n, op["N"])
+            run.check(ids == want, "down-sampling keeps the evenly spaced poses", case,
+                      "downsample(%d) kept %s.., expected %s.." % (op["N"], ids[:8], want[:8]), key="downsample:wrong-selection")
         if name == "crop":
             s_eff = sh.t[0] if op["start"] is None else op["start"]
             e_eff = sh.t[-1] if op["end"] is None else op["end"]
